@@ -199,9 +199,15 @@ def m_step(machine: "IVectorMachine", stats: IVectorStats) -> "IVectorMachine":
         fnorm_sigma_wij_tt = np.diagonal(
             stats.fnorm_sigma_wij @ X, axis1=-2, axis2=-1
         )
-        machine.sigma = (stats.snormij - fnorm_sigma_wij_tt) / stats.nij[
-            :, None
-        ]
+        # a component that received no frames keeps its previous covariance
+        # (instead of 0/0)
+        seen = stats.nij[:, None] > 0
+        machine.sigma = np.where(
+            seen,
+            (stats.snormij - fnorm_sigma_wij_tt)
+            / np.where(seen, stats.nij[:, None], 1.0),
+            machine.sigma,
+        )
         machine.sigma[
             machine.sigma < machine.variance_floor
         ] = machine.variance_floor
